@@ -13,7 +13,7 @@ Decided (structural clauses, each a necessary condition of the behaviour):
                  default method, for every overridden method.
 Not decided: byte-for-byte equality of whole outputs for arbitrary values.
 """
-from .. import common, facts, sim
+from .. import common, facts, lex, sim
 from ..report import load_table
 from ..sim import Adt, Bytes, Opq, UNK
 
@@ -204,7 +204,7 @@ def fmt_agree(ctx, lexpr):
                  if f.kind == "assoc" and f.self_ty == "print::CustomizedFormatter" and f.impl_trait == "print::Formatter"]
     r.floor("overrides", len(overrides))
     fwd = common.sink_forwarders(lexpr)
-    inl = lambda a, b: b.path in fwd
+    inl = lex.print_inline(lexpr)
     for cf in overrides:
         m = cf.path.rsplit("::", 1)[1]
         df = lexpr.fn("print::Formatter::" + m)
